@@ -78,6 +78,7 @@ def gen_plan(rng, index, tier):
             s["factors"] = [round(rng.uniform(0.92, 1.1), 4) for _ in range(6)]
         elif kind == "lowlevel_thermal":
             s["deltas"] = [rng.choice([50.0, 0.0, -50.0, 25.0]) for _ in range(rng.randint(2, 5))]
+            s["subset"] = rng.choice([None, None, "fuel", "clad"])  # only some components are re-tempered (the fuel pins, say)
         elif kind == "redim":
             pass
         else:
@@ -381,6 +382,8 @@ class Runner:
                     was.append((t, None if t is None else float(t.temperatureInC), float(b.getHeight())))
                 mid = led.state()
                 for _, c in led.solids:
+                    if st.get("subset") and c.name != st["subset"]:
+                        continue  # (not re-tempered: such a component does not grow)
                     ch.expansionData.updateComponentTemp(c, float(c.temperatureInC) + dT)
                 ch.expansionData.computeThermalExpansionFactors()
                 ch.axiallyExpandAssembly()
